@@ -248,6 +248,7 @@ pub fn build_src(s: &Src, env: &Env) -> Bx {
     Src::FutureReady(v) => bx(
       observable::from_future(CountingFut { v: Some(v.clone()), cn: env.counters.clone() }, VSched).on_error_map(inf as InfFn),
     ),
+    Src::FutureResultReady(r) => bx(observable::from_future_result(CountingTryFut { r: Some(r.clone()), cn: env.counters.clone() }, VSched)),
     Src::CountingIter(n) => {
       let cn = env.counters.clone();
       let it = (0..*n as i64).map(move |i| {
@@ -305,6 +306,20 @@ impl futures::Stream for CountingStream {
     } else {
       std::task::Poll::Ready(None)
     }
+  }
+}
+
+/// the fallible twin (for `from_future_result`)
+#[derive(Clone)]
+pub struct CountingTryFut {
+  r: Option<Result<V, E>>,
+  cn: Sh<Counters>,
+}
+impl std::future::Future for CountingTryFut {
+  type Output = Result<V, E>;
+  fn poll(mut self: std::pin::Pin<&mut Self>, _: &mut std::task::Context<'_>) -> std::task::Poll<Result<V, E>> {
+    lock!(self.cn).fut_polls += 1;
+    std::task::Poll::Ready(self.r.take().expect("future polled after completion"))
   }
 }
 
@@ -385,6 +400,7 @@ pub fn build_clone(node: &Node, env: &Env) -> Option<CBx> {
       Src::FutureReady(v) => cbx(
         observable::from_future(CountingFut { v: Some(v.clone()), cn: env.counters.clone() }, VSched).on_error_map(inf as InfFn),
       ),
+      Src::FutureResultReady(r) => cbx(observable::from_future_result(CountingTryFut { r: Some(r.clone()), cn: env.counters.clone() }, VSched)),
       Src::Interval(p) => cbx(observable::interval(ticks(*p), VSched).map(|n: usize| V::I(n as i64)).on_error_map(inf as InfFn)),
       _ => return None,
     }),
